@@ -12,11 +12,18 @@ def nt_range(suite, case, impl):
     return False
 
 
+HOOK_COMMITS = []
+
+LEVEL_NOTE_COMMON = "Trusted: Lean 4.33 kernel (axioms propext, Classical.choice, Quot.sound only; audited per theorem on every run); the hand-written model, whose agreement with /repo is checked by differential execution on every run, not proved; the Go harness/canonicalisation; "
+
 PROPS = {
     "C19": {
         "suites": [("range", 3000, 60000)],
         "props": ["C19"],
         "level": "proof",
+        "technique": "Lean 4 theorems over UInt64 (split loop invariant by functional induction, interval arithmetic by omega) + differential correspondence of every Range method",
+        "level_text": "Every clause of C19 is a kernel-checked theorem about the UInt64 model of range.go (Props/C19.lean: contains_spec, reachedEnd_spec, size_spec, next/previous_spec, isNext_iff, split_spec, split_total, parseRange_total) for all heights, flag pairs and chunk sizes; the both-exclusive Split clause is refuted by a kernel-checked witness and recorded as a known finding. The model is tied to /repo by running every method on boundary-pool inputs and diffing.",
+        "level_note": LEVEL_NOTE_COMMON + "Go uint64 arithmetic = Lean UInt64; ParseRange modelled at byte level.",
         "rule": "cases = 1-6 ops on generated ranges (boundary pool 0,1,2^31±1,2^32±1,2^63±1,2^64-12..2^64-1 mixed with small/uniform heights, 4 flag pairs, chunk sizes from 1 to 2^64-1, malformed ParseRange byte strings); distinct = sha1 of the op lines; non-trivial = contains a Split into >=2 chunks, a ParseRange, an IsNext or a ReachedEndBlock op",
         "nontrivial": nt_range,
         "explanation": "Lean theorems over UInt64 (all 2^64 heights, all flag pairs, all chunk sizes) about a hand-written model of range.go; the model is tied to /repo by differential execution of every Range method on generated inputs; F-C19d (both-exclusive split) is a recorded finding and the Split union theorem is stated for the other three flag pairs",
